@@ -447,3 +447,96 @@ func c18Run(t *testing.T, draw func(*rapid.T) (string, int, [][]c18Op, bool), so
 		col.Case(anyFlip && (len(scripts) >= 2 || soak), hx.JSON(desc), func() any { return desc })
 	})
 }
+
+// TestC18PipelinedRepeats: a client that pipelines (many EVENTs / REQs back to back, replies
+// read afterwards). Every repeat inside the window gets its own rejection naming its own id,
+// in order, and stays what it was when later messages are processed; over-quota REQs likewise.
+func TestC18PipelinedRepeats(t *testing.T) {
+	col := ev.For("C18").SetRule(c18Rule)
+	rapid.Check(t, func(t *rapid.T) {
+		kind := rapid.SampledFrom([]string{"recvunique", "recvunique", "quota"}).Draw(t, "middleware")
+		n := rapid.IntRange(2, 8).Draw(t, "n")
+		k := rapid.IntRange(4, 60).Draw(t, "burst")
+		var mw mocrelay.Middleware
+		if kind == "quota" {
+			mw = mocrelay.Middleware(mocrelay.NewMaxSubscriptionsMiddleware(n))
+		} else {
+			mw = mocrelay.Middleware(mocrelay.NewRecvEventUniqueFilterMiddleware(n))
+		}
+		rig := NewRig(func(h mocrelay.Handler) mocrelay.Handler { return mw(h) })
+		s, err := rig.Start()
+		if err != nil {
+			hx.Fail(t, ev.Failure{Property: "C18", Signature: "session-start", Clause: "a session starts", Observed: err.Error()})
+		}
+		defer s.End()
+		var msgs []mocrelay.ClientMsg
+		var ids []string
+		var wantFwd, wantRej []string
+		seen := map[string]bool{}
+		for i := 0; i < k; i++ {
+			if kind == "quota" {
+				// ids beyond the quota are refused; the first n distinct ids are open
+				id := fmt.Sprint("q", rapid.IntRange(0, n+3).Draw(t, fmt.Sprintf("id%d", i)))
+				ids = append(ids, id)
+				msgs = append(msgs, &mocrelay.ClientReqMsg{SubscriptionID: id, ReqFilters: []*mocrelay.ReqFilter{{}}})
+				if seen[id] || len(seen) < n {
+					seen[id] = true
+					wantFwd = append(wantFwd, id)
+				} else {
+					wantRej = append(wantRej, id)
+				}
+				continue
+			}
+			// at most n distinct ids: every repeat is inside the window
+			id := fmt.Sprint("e", rapid.IntRange(0, n-1).Draw(t, fmt.Sprintf("id%d", i)))
+			e := &mocrelay.Event{Pubkey: gen.Keys[0].Pub, Kind: 1, CreatedAt: 1, Content: id}
+			gen.Seal(e)
+			ids = append(ids, id)
+			msgs = append(msgs, &mocrelay.ClientEventMsg{Event: e})
+			if seen[id] {
+				wantRej = append(wantRej, e.ID)
+			} else {
+				seen[id] = true
+				wantFwd = append(wantFwd, e.ID)
+			}
+		}
+		desc := map[string]any{"middleware": kind, "n": n, "mode": "pipelined burst", "ids": ids}
+		fwd, replies, err := s.Burst(msgs)
+		if err != nil {
+			hx.Fail(t, ev.Failure{Property: "C18", Signature: "stalled", Clause: "the middleware keeps processing messages", Case: desc, Observed: err.Error()})
+		}
+		var gotFwd, gotRej []string
+		for _, m := range fwd {
+			switch x := m.(type) {
+			case *mocrelay.ClientEventMsg:
+				gotFwd = append(gotFwd, x.Event.ID)
+			case *mocrelay.ClientReqMsg:
+				gotFwd = append(gotFwd, x.SubscriptionID)
+			}
+		}
+		for _, r := range replies {
+			switch x := r.(type) {
+			case *mocrelay.ServerOKMsg:
+				if x.Accepted {
+					gotRej = append(gotRej, "accepting OK "+x.EventID)
+				} else {
+					gotRej = append(gotRej, x.EventID)
+				}
+			case *mocrelay.ServerClosedMsg:
+				gotRej = append(gotRej, x.SubscriptionID)
+			default:
+				gotRej = append(gotRej, hx.JSON(briefServer(r)))
+			}
+		}
+		if hx.JSON(gotFwd) != hx.JSON(wantFwd) {
+			hx.Fail(t, ev.Failure{Property: "C18", Signature: "pipelined-forwarding", Clause: "a REQ / EVENT is forwarded iff the quota / window allows it (pipelined client)", Case: desc,
+				Observed: hx.JSON(gen.ShortAll(gotFwd)), Expected: hx.JSON(gen.ShortAll(wantFwd))})
+		}
+		if hx.JSON(gotRej) != hx.JSON(wantRej) {
+			hx.Fail(t, ev.Failure{Property: "C18", Signature: "pipelined-rejections", Clause: "every refused message is answered with a rejection naming it (CLOSED with the subscription id / duplicate-marked OK with the event id), in order, also when the client pipelines", Case: desc,
+				Observed: hx.JSON(gen.ShortAll(gotRej)), Expected: hx.JSON(gen.ShortAll(wantRej))})
+		}
+		col.Label("mode:pipelined")
+		col.Case(len(wantRej) >= 2, hx.JSON(desc), func() any { return desc })
+	})
+}
